@@ -59,7 +59,7 @@ def inRange (ty : CTy) (q : Rat) : Bool :=
 
 def isSurrogate (c : Nat) : Bool := decide (0xD800 ≤ c ∧ c ≤ 0xDFFF)
 
-/-- length of `chr(c).encode("utf8")` -/
+/-- length of `chr(c).encode("utf8", errors="surrogatepass")` -/
 def utf8Len (c : Nat) : Nat := if c < 0x80 then 1 else if c < 0x800 then 2 else if c < 0x10000 then 3 else 4
 
 /-- `Constant.__init__(data_type, name, value)`: the stored value, or the rejection. -/
@@ -74,14 +74,13 @@ def constCheck (ty : CTy) (v : Val) : R Val :=
     | .uint n m, .rat q => if Rat.isInt' q && inRange (.uint n m) q then .ok (.rat q) else inval .constant
     | .int n m, .rat q => if Rat.isInt' q && inRange (.int n m) q then .ok (.rat q) else inval .constant
     | .uint n _, .str cs =>
-        if cs.any isSurrogate then .error (.hazard .surrogateEncode)
-        else if (cs.map utf8Len).sum != 1 then inval .constant
+        -- `encode("utf8", errors="surrogatepass")`: a lone surrogate is three bytes, i.e. not one ASCII character
+        if (cs.map utf8Len).sum != 1 then inval .constant
         else if n != 8 then inval .constant
         else match cs with
           | [c] => .ok (.rat (c : Nat))
           | _ => inval .constant
-    | .int _ _, .str cs =>
-        if cs.any isSurrogate then .error (.hazard .surrogateEncode) else inval .constant
+    | .int _ _, .str _ => inval .constant
     | .uint _ _, .bool _ => inval .constant
     | .int _ _, .bool _ => inval .constant
     | .float n m, .rat q => if inRange (.float n m) q then .ok (.rat q) else inval .constant
